@@ -13,6 +13,8 @@ FAMS = ["value", "field", "call", "closure", "role", "container", "global", "ifa
 
 
 def run(ctx):
+    if ctx.replay:
+        return sem.replay(ctx, ctx.replay, mode="taint")
     thorough = ctx.tier == "thorough"
     k1 = sem.enum_chains(ctx, 1, semgen.DECORATIONS, maxdeco=1, tag="k1", needfam="role", fams=FAMS)
     k2 = sem.enum_chains(ctx, 2, ["plain"], maxdeco=0, tag="k2", needfam="role", fams=FAMS)
@@ -28,5 +30,6 @@ def run(ctx):
     rnd.shuffle(sim)
     sim = sim[: (1200 if thorough else 100)]
     items = [list(c) for c in sorted(chains)] + [list(c) for c in sim]
+    items += [c for c in sem.pinned_chains(ctx.prop) if list(c) not in items]
     sem.taint_flow_check(ctx, items, lambda ch, name: semgen.build_chain(ch, name=name), nexh, len(sim),
                          prop_what="a sanitizer/validator suppresses a flow that does not pass through it:")
